@@ -38,7 +38,7 @@ PROPS = {
         ]),
     'C09': dict(
         units=['handlers', 'observer'], level='proof',
-        replays=['c09_spurious_changed.rs', 'c09_double_unsubscribe.rs'],
+        replays=['c09_spurious_changed.rs', 'c09_double_unsubscribe.rs', 'c09_state_unsubscribe_before_first_stabilise.rs'],
         uncovered=[
             'that a due callback is actually invoked (liveness); the contracts pin the argument of every call that is made, and the handler state after it',
             'the delivery loops (Node::run_on_update_handlers, InternalObserver::run_all): frame obligations only',
